@@ -180,8 +180,10 @@ for _pid in ("C04", "C12"):
         level="model_checking",
         level_text="Bounded symbolic execution of the real limit New+main on M symbolic elements with Quantity and Interval UNCONSTRAINED valid 64-bit values (the batch loop is bounded by the "
                    "elements supplied, not by Quantity) and a symbolic clock: batch k starts >= k Intervals after creation, batches hold <= Quantity sends, sends of batches a<b are "
-                   ">= (b-a-1) Intervals apart (these imply the two stated count formulas by the 3-line derivation in DESIGN 7 C04); pass-through, close, pause counts for C12.",
-        level_note="Bound: M elements (quick <=5, thorough <=7), buffered (prefilled) and unbuffered (parked producer) input. Clock readings < 2^62 ns. Trusted: engine, time model.",
+                   ">= (b-a-1) Intervals apart (these imply the two stated count formulas by the 3-line derivation in DESIGN 7 C04); in addition the two stated count formulas themselves, on observable "
+                   "instants only (creation, the instants at which elements leave): t_i - t0 >= floor(i/Q)*Interval and t_j - t_i >= (floor((j-i)/Q)-1)*Interval, floor(./Q) split into cases, asserted for the last "
+                   "element of every run (runs with fewer elements are the prefixes); pass-through, close, pause counts for C12. A limit discipline that paces with a ticker is outside the harness (machinery stop).",
+        level_note="Bound: M elements (<=5), buffered (prefilled) and unbuffered (parked producer) input. Clock readings < 2^62 ns. Trusted: engine, time model.",
         technique="symbolic execution of go/ssa with a symbolic clock; Int-encoded SMT queries (z3)",
         bounds=dict(quick="M in 0..5 elements; three arrival patterns (all up-front, eager unbuffered writers, bursts after stalls)", thorough="as quick, 600 s per query (M=6 leaves one C04 obligation undecided and is not registered)"),
         assumptions=["time model of DESIGN 3.6: lower bounds only (arbitrary delays anywhere); Sleep(d) advances by >= d",
@@ -231,6 +233,8 @@ _G_SIMPLE_NEW = dict(mod="v2", pkg="priority/simple", overlay="harness/v2/simple
 
 _PRIO_NOTE = ("Bounds: n configured priorities (quick <=3, thorough <=4) with symbolic 64-bit values; J items per input per call; H and all counters are unconstrained 64-bit words in the step "
               "obligations; bounded runs from New use H<=2 (3), <=2 inputs, <=1 (2) items each. Outside: n beyond the bound, dividers that write more than one foreign key, handlers that release what they never received. "
+              "Runs from New judge C02 on per-input queues of read-and-unwritten items (any order-preserving buffering passes), include one busy input (3 items) next to an idle one, and let several releases "
+              "sit in the feedback buffer at once. v1 also has a black-box run (VerifBB_v1_run) that names only the command channels. "
               "Trusted: engine, channel/select/ticker model, stubs listed in evidence.")
 
 def _prio(pid, text, groups, **kw):
@@ -401,7 +405,7 @@ PROPS["C20"] = dict(
                "between rounds; matchings of sends and receives are those of the explored paths. breaker.Break is represented by its channel close. Not covered: v1 Simple's handler goroutines, races that need more items/handlers than the bound.",
     technique="symbolic execution of go/ssa recording per-role access and synchronisation events; happens-before decided by SMT (integer difference constraints, z3)",
     assumptions=_PRIO_ASSUME + ["Go memory model edges used: program order, go statement -> goroutine start, send -> matching receive, close -> receive of closed, Once.Do completion -> later Do, atomic store -> load, WaitGroup.Done -> Wait",
-                                "user goroutines are started after the constructor returned; a no-copy consumer only reads the slice it was lent; a copy-mode consumer keeps and modifies its slices for ever; a producer may keep READING what it has sent"],
+                                "user goroutines are started after the constructor returned; a no-copy consumer only reads the slice it was lent; a copy-mode consumer keeps and modifies its slices for ever, including their spare capacity (append); a producer may keep READING what it has sent; the creator reuses (writes) the Inputs map it passed once New has returned"],
     bounds=dict(quick="v2 priority n=2,H=2,J=1; join/unite JS 1..2, 3 elements; limit 3 elements; v1 priority H=2,J=1 with 3 control commands; v1 join", thorough="v2 priority J=2, H<=3; JS<=3, 4 elements"),
     groups=[
         _c20("v2", "priority", "harness/v2/priority", "^VerifC20_", dict(n=[2], H=[2], J=[1]), dict(n=[2], H=[2, 3], J=[1, 2]), "replay/v2/priority/race_scenario_test.go"),
